@@ -519,7 +519,7 @@ def small_shard(task):
 
 
 # ---- literal spellings in every syntactic position: pure dump round trip (no reference parser needed) ----
-LIT_SPELLINGS = [("neg-int", "-1"), ("neg-int2", "-42"), ("neg-double", "-1.5"), ("double", "1.5"), ("double-e", "1e3"), ("double-dot", ".5"), ("uint", "1u"),
+LIT_SPELLINGS = [("neg-int", "-1"), ("neg-int2", "-42"), ("neg-double", "-1.5"), ("double", "1.5"), ("double-e", "1e3"), ("double-dot", ".5"), ("neg-double-e", "-1e3"), ("neg-double-e2", "-12e-3"), ("double-E", "1E+3"), ("neg-double-dot", "-.5"), ("uint", "1u"),
                  ("hex", "0x1F"), ("neg-hex", "-0x1f"), ("dq-string", '"s"'), ("sq-string", "'s'"), ("bytes", 'b"x"'), ("raw", 'r"a"'), ("triple", '"""m"""'),
                  ("escape", '"\\n\\""'), ("ident-digit", "x1"), ("bool", "true"), ("null", "null")]
 LIT_POSITIONS = [("alone", "{X}"), ("select", "{X} .f"), ("method", "{X} .f(a)"), ("method0", "{X} .f()"), ("index", "{X}[a]"), ("index-arg", "a[{X}]"), ("add-right", "a + {X}"),
@@ -550,8 +550,11 @@ def literal_shard(task):
     for cls, pos, text in items:
         o = rparse(text)
         if o[0] != "T":
-            part.case(nontrivial=False)      # the parser rejects this spelling in this position: nothing to round-trip
+            # every spelling of LIT_SPELLINGS is a legal CEL literal and every position takes any primary
+            part.case()
             part.outcome("literal:rejected")
+            part.violation("rejected", f"parse:literal-spelling:{cls}:{pos.split('>')[-1]}:rejected", {"check": "dump", "text": text, "space": "literals"},
+                           f"{text!r} is CEL (literal spelling {cls} in position {pos}) but the parser rejects it: {o}")
             continue
         part.case()
         mode, dumped = roundtrip(o[1])
